@@ -272,6 +272,36 @@ func run(c *Ctx) {
 			one(c, mb, c.R.Bool(), i%4 == 0, &st)
 		}
 	}
+	// deep nesting: every block / bracket construct nested in itself and alternating, depth 1..48 (indentation levels,
+	// recursion depth of the printer), complete and cut short
+	openers := []struct{ o, c string }{{"func(){", "}"}, {"if true {", "}"}, {"for a {", "}"}, {"() => {", "}"}, {"[", "]"}, {"(", ")"}, {"{1:", "}"}, {"if a {1} else {", "}"}, {"f(", ")"}, {"m = macro(x){", "}"}}
+	for d := 1; d <= 48; d++ {
+		for k, op := range openers {
+			alt := openers[(k+1)%4]
+			var b, e string
+			for i := 0; i < d; i++ {
+				u := op
+				if i%2 == 1 && k < 4 {
+					u = alt
+				}
+				b += u.o
+				e = u.c + e
+			}
+			body := "1"
+			if d%3 == 0 {
+				body = "x // c\ny"
+				if k >= 4 && k != 7 {
+					body = "1"
+				}
+			}
+			src := []byte(b + body + e)
+			one(c, src, false, d <= 20, &st)
+			one(c, src, true, false, &st)
+			if d%7 == 0 {
+				one(c, src[:len(src)-d/2], false, false, &st)
+			}
+		}
+	}
 	// the entry points in front of the parser: shebang scripts and their truncations, every byte after "#!", and a sample
 	// of the inputs above
 	for _, scr := range []string{"#!/usr/bin/env grol -s\nprintln(1)\n", "#!\n", "#! x = )\nf(", "#!grol\r\n[1,\n", "#\n!", "x\n#!y"} {
